@@ -175,6 +175,18 @@ func (h *HelloPingHandler) handlePingHelloRequest(w *mgr.WorkerCtx, f frame.Fram
 		return fmt.Errorf("unmarshal request: %w", err)
 	}
 
+	// Check for a simultaneous hello ping of our own to the same router.
+	// If both routers would complete both key exchanges, they would end up with
+	// keys of different exchanges. The router with the lower address keeps its
+	// own request, the other router abandons its request and acts as server.
+	if pingState := h.getActive(f.SrcIP()); pingState != nil && !pingState.done.Load() {
+		if h.r.instance.Identity().IP.Compare(f.SrcIP()) < 0 {
+			return errors.New("simultaneous hello ping: keeping own request")
+		}
+		// Abandon own request, a response to it will be ignored.
+		pingState.done.Store(true)
+	}
+
 	// Do key exchange.
 	session := h.r.instance.State().GetSession(f.SrcIP())
 	if session == nil {
